@@ -1,4 +1,5 @@
 import GlyModel.Smiles.Sem
+import GlyProofs.Smiles.TreePerm
 import GlyProofs.Front.WalkDen
 /-
   C07 — The order in which branches are written is immaterial. (Property theorems only.)
@@ -6,46 +7,21 @@ import GlyProofs.Front.WalkDen
 namespace Gly.Props.C07
 open Gly Gly.Smi
 
-/-- token-level marker substitution: every occurrence of the marker atom is replaced by the block -/
-def substTok (m : Atom) (block : List Tok) (ts : List Tok) : List Tok :=
-  ts.flatMap (fun t => if t = Tok.atom m then block else [t])
-
-theorem substTok_append (m : Atom) (b : List Tok) (x y : List Tok) :
-    substTok m b (x ++ y) = substTok m b x ++ substTok m b y := by
-  simp [substTok, List.flatMap_append]
-
-theorem substTok_id (m : Atom) (b ts : List Tok) (h : Tok.atom m ∉ ts) : substTok m b ts = ts := by
-  induction ts with
-  | nil => rfl
-  | cons t ts ih =>
-    have ht : t ≠ Tok.atom m := fun e => h (by simp [e])
-    have : substTok m b (t :: ts) = t :: substTok m b ts := by simp [substTok, ht]
-    rw [this, ih (fun hm => h (by simp [hm]))]
-
 /-- **Splices at different markers commute**: the k-th child replaces the k-th marker wherever that marker sits, and it
     does not matter in which order the children are processed – provided no child contains the other's marker
     (markers are pairwise distinct elements, `C02_marker_tables_disjoint`, and children are merged before they are
     inserted, so they contain no marker at all). -/
 theorem C07_splices_commute (m1 m2 : Atom) (b1 b2 ts : List Tok) (hne : m1 ≠ m2)
     (h12 : Tok.atom m2 ∉ b1) (h21 : Tok.atom m1 ∉ b2) :
-    substTok m1 b1 (substTok m2 b2 ts) = substTok m2 b2 (substTok m1 b1 ts) := by
-  induction ts with
-  | nil => rfl
-  | cons t ts ih =>
-    have e : ∀ (m : Atom) (b : List Tok), substTok m b (t :: ts) = substTok m b [t] ++ substTok m b ts := by
-      intro m b; rw [← substTok_append]; rfl
-    rw [e m2 b2, e m1 b1, substTok_append, substTok_append, ih]
-    congr 1
-    have single : ∀ (m : Atom) (b : List Tok) (x : Tok), substTok m b [x] = if x = Tok.atom m then b else [x] := by
-      intro m b x; simp [substTok]
-    by_cases h1 : t = Tok.atom m1
-    · subst h1
-      have hne' : Tok.atom m1 ≠ Tok.atom m2 := fun e => hne (by injection e)
-      rw [single m2 b2, if_neg hne', single m1 b1, if_pos rfl, substTok_id m2 b2 b1 h12]
-    · by_cases h2 : t = Tok.atom m2
-      · subst h2
-        rw [single m2 b2, if_pos rfl, single m1 b1, if_neg h1, single m2 b2, if_pos rfl, substTok_id m1 b1 b2 h21]
-      · rw [single m2 b2, if_neg h2, single m1 b1, if_neg h1, single m2 b2, if_neg h2]
+    substTok m1 b1 (substTok m2 b2 ts) = substTok m2 b2 (substTok m1 b1 ts) :=
+  splices_commute m1 m2 b1 b2 ts hne h12 h21
+
+/-- **The order of the children is immaterial** (any number of children, any depth below them): for a well-formed residue,
+    permuting its children – each keeping its marker – leaves the assembled string unchanged, token for token. -/
+theorem C07_children_order_immaterial (isMk : Atom → Bool) (hN : isMk ['N'] = false) (toks : List Tok)
+    (kids kids' : List (Atom × Bool × TNode)) (hp : kids.Perm kids') (hwf : wfTree isMk (.mk toks kids) = true) :
+    mergeTok (.mk toks kids') = mergeTok (.mk toks kids) :=
+  mergeTok_perm isMk hN toks kids kids' hp hwf
 
 /-- The walker hangs bracketed branches and the main chain on the same parent, children in written order (C03). -/
 theorem C07_walk_children_order (w : WalkCfg) (s : Start) : walkStart w s = denStart w s := walkStart_eq_denStart w s
